@@ -5,6 +5,7 @@ from __future__ import annotations
 
 from fractions import Fraction
 
+from .defuse import key as _tkey
 from .defuse import show, walk_term
 
 NP = "numpy."
@@ -138,7 +139,7 @@ class Lin:
 def lin(t, atom_key=None) -> Lin:
     """Linear normal form of a term.  ``atom_key`` maps an atom term to its
     key (default: shown text after stripping conversions)."""
-    key = atom_key or (lambda x: show(strip_conv(x), 400))
+    key = atom_key or (lambda x: _tkey(strip_conv(x)))
     t0 = t
     t = strip_conv(t)
     if t[0] == "const" and isinstance(t[1], (int, float)) and not isinstance(
@@ -363,4 +364,22 @@ def callee_of(t):
         return t[1][1], list(t[2])
     if t[0] == "mcall" and t[1][0] == "name":
         return f"{t[1][1]}.{t[2]}", list(t[3])
+    return None
+
+
+def dict_from_zip(t):
+    """(keys iterable, values iterable) of  dict(zip(A, B))  or
+    {k: v for k, v in zip(A, B)}; None otherwise."""
+    if t[0] == "call" and t[1] == "builtins.dict" and len(t[2]) == 1 and \
+            not t[3]:
+        z = t[2][0]
+        if z[0] == "call" and z[1] == "builtins.zip" and len(z[2]) == 2:
+            return z[2][0], z[2][1]
+    if t[0] == "comp" and t[1] == "dict" and len(t[3]) == 1 and \
+            not t[3][0][2]:
+        z = t[3][0][1]
+        if z[0] == "call" and z[1] == "builtins.zip" and len(z[2]) == 2 \
+                and t[2] == ("tuple", (("zipelem", 0, z[2]),
+                                       ("zipelem", 1, z[2]))):
+            return z[2][0], z[2][1]
     return None
